@@ -244,6 +244,11 @@ def same_name_trees(base):
         tree(['.include "%s"' % asked, " nop"], {real: " .dw 1\n"}, "", missing=asked.split("/")[-1])
         tree(['.include "%s"' % real, " nop"], {real: " .dw 1\n"}, " .dw 1\n nop\n")
     tree(['.include "Defs.inc"', '.include "defs.inc"'], {"Defs.inc": " .dw 1\n", "defs.inc": " .dw 2\n"}, " .dw 1\n .dw 2\n")
+    # the directory of an included file is searched for ITS includes only: afterwards the includer does not find files there
+    tree(['.include "drivers/uart.inc"', '.include "x.inc"'], {"drivers/uart.inc": " .dw 1\n", "drivers/x.inc": " .dw 2\n"}, "", missing="x.inc")
+    tree(['.include "drivers/uart.inc"', " nop"], {"drivers/uart.inc": '.include "x.inc"\n .dw 1\n', "drivers/x.inc": " .dw 2\n"}, " .dw 2\n .dw 1\n nop\n")
+    tree(['.include "a/one.inc"', '.include "b/two.inc"'], {"a/one.inc": " .dw 1\n", "a/only_in_a.inc": " .dw 9\n", "b/two.inc": '.include "only_in_a.inc"\n'}, "", missing="only_in_a.inc")
+    tree(['.include "a/one.inc"', '.include "lib/x.inc"'], {"a/one.inc": " .dw 1\n", "a/x.inc": " .dw 8\n", "lib/x.inc": " .dw 3\n"}, " .dw 1\n .dw 3\n")
     # control: one file included several times is read every time (a .set variable shows it)
     tree([".set n = 0", '.include "inc/bump.inc"', '.include "inc/bump.inc"', '.include "inc/bump.inc"', " .dw n"],
          {"inc/bump.inc": ".set n = n + 1\n .dw n\n"}, ".set n = 0\n" + ".set n = n + 1\n .dw n\n" * 3 + " .dw n\n")
